@@ -50,6 +50,11 @@ def programs(tier):
         {'tag': 'b', 'onerror': ['text', py('L(1)')], 'children': [L(0)]}, 'after']}), o3(0, 1)))
     out.append(('content', doc({'tag': 'a', 'content': ['text', py('L(0)')], 'onerror': fb, 'children': ['x']}),
                 o3(0)))
+    out.append(('in-translate', doc({'tag': 'p', 'i18n_translate': '', 'children': [
+        'x ', {'tag': 'span', 'static': [['class', 'k']], 'onerror': fb, 'children': ['partial ', L(0)]}, ' y']}), o3(0)))
+    out.append(('in-name', doc({'tag': 'p', 'i18n_translate': '', 'children': [
+        'a ', {'tag': 'b', 'i18n_name': 'n', 'children': ['pre ', {'tag': 'span', 'onerror': fb2, 'children': ['q', L(0)]}]},
+        ' c ', {'tag': 'i', 'onerror': fb3, 'children': [L(1)]}]}), o3(0, 1)))
     if tier != 'quick':
         out.append(('nested3', doc({'tag': 'a', 'onerror': fb, 'children': [
             'A1', {'tag': 'b', 'onerror': fb2, 'children': [
@@ -70,7 +75,8 @@ def plan(tier, seed):
     quick = tier == 'quick'
     jobs = []
     for label, prog, vars_ in programs(tier):
-        jobs.append({'prog': prog, 'vars': vars_, 'label': label, 'handler': True})
+        jobs.append({'prog': prog, 'vars': vars_, 'label': label, 'handler': True,
+                     'i18n': label.startswith('in-')})
     single = jobs[0]
     fam = dict(name='on_error_templates', module=HG, fn='H', jobs=jobs, timeout=300 if quick else 900,
                batch=2, vacuity=2, program_key='prog',
